@@ -1,6 +1,16 @@
 package main
 
-import "os"
+import (
+	"os"
+	"sort"
+	"strconv"
+	"strings"
+)
+
+type qres struct {
+	r Result
+	m Model
+}
 
 // Branch feasibility.  Every live state carries a witness model of its path
 // condition (when the condition is evaluable, i.e. free of uninterpreted
@@ -87,8 +97,38 @@ func (ex *Exec) query(st *State, c *Term) (bool, Model) {
 		return f, m
 	}
 	conj := append(ex.pcSlice(st, c), c)
+	// identical (slice, condition) queries recur across sibling paths: memoise
+	ids := make([]int, len(conj))
+	for i, t := range conj {
+		ids[i] = int(t.id)
+	}
+	sort.Ints(ids[:len(ids)-1])
+	var kb strings.Builder
+	for _, id := range ids {
+		kb.WriteString(strconv.Itoa(id))
+		kb.WriteByte(',')
+	}
+	key := kb.String()
+	if ex.qcache == nil {
+		ex.qcache = map[string]qres{}
+	}
+	if e, ok := ex.qcache[key]; ok {
+		ex.qcacheHits++
+		switch e.r {
+		case Unsat:
+			return false, nil
+		case Sat:
+			if st.modelOK {
+				return true, overlay(st.model, e.m)
+			}
+			return true, e.m
+		}
+	}
 	ex.queriesBr++
 	r, m := ex.solver.Check(conj, true)
+	if r != Unknown && len(ex.qcache) < 2000000 {
+		ex.qcache[key] = qres{r, m}
+	}
 	switch r {
 	case Unsat:
 		return false, nil
